@@ -30,6 +30,19 @@ The Go harness runs the real implementation on the same lines; bin/check diffs t
 -/
 open GV
 
+/-- C14 ops. `C14 fresh <op…>` (the Go side answers the op in a new process whose first call is the entry point of the op)
+has the answer of `<op…>`: the model is a function of the op line, it has no process state. -/
+def handleC14 : List String → String
+  | "mimc" :: rest => MiMC.handle rest
+  | "p2perm" :: rest => Poseidon2.handlePerm rest
+  | "p2comp" :: rest => Poseidon2.handleComp rest
+  | "md" :: rest => Poseidon2.handleMD rest
+  | "vx" :: rest => Poseidon2.handleVx rest
+  | "sis" :: rest => SIS.handleWith true rest
+  | "sism" :: rest => SIS.handle rest
+  | "sisd" :: rest => SIS.handleDirty rest
+  | _ => "bad-op"
+
 def handleLine (line : String) : String :=
   match words line with
   | "SHA256" :: [m] => bytesToHex (Sha256.hash (parseBytes m))
@@ -57,14 +70,8 @@ def handleLine (line : String) : String :=
   | "C12" :: rest => SigOps.handle rest
   | "C13" :: rest => HashToField.handle rest
   | "C03" :: rest => ScalarMul.handleTop rest
-  | "C14" :: "mimc" :: rest => MiMC.handle rest
-  | "C14" :: "p2perm" :: rest => Poseidon2.handlePerm rest
-  | "C14" :: "p2comp" :: rest => Poseidon2.handleComp rest
-  | "C14" :: "md" :: rest => Poseidon2.handleMD rest
-  | "C14" :: "vx" :: rest => Poseidon2.handleVx rest
-  | "C14" :: "sis" :: rest => SIS.handleWith true rest
-  | "C14" :: "sism" :: rest => SIS.handle rest
-  | "C14" :: "sisd" :: rest => SIS.handleDirty rest
+  | "C14" :: "fresh" :: rest => handleC14 rest
+  | "C14" :: rest => handleC14 rest
   | "C06slp" :: rest => TowerExec.handle rest
   | "C04" :: rest => MSM.handle rest
   | "C20" :: rest => Poly.handle rest
